@@ -18,21 +18,23 @@ PgOps == {"PgILike", "PgNotILike", "PgMatches", "PgContains", "PgContained", "Pg
           "PgWordSimilarityDistance", "PgStrictWordSimilarityDistance", "PgGetJsonField", "PgCastJsonField",
           "PgRegex", "PgRegexCaseInsensitive"}
 LiteOps == {"SqliteGlob", "SqliteMatch", "SqliteGetJsonField", "SqliteCastJsonField"}
+\* BinOper::Custom with operators whose engine precedence is known (EnginePrec): concat / OR, power / xor, logical xor, null-safe equal
+CustomOps == {"Custom:||", "Custom:^", "Custom:XOR", "Custom:<=>"}
 
 BinC(op) == [c |-> "bin", op |-> op, neg |-> FALSE, esc |-> FALSE, ci |-> FALSE]
 OtherC(c, neg, esc, ci) == [c |-> c, op |-> "", neg |-> neg, esc |-> esc, ci |-> ci]
 Ctors ==
-  {BinC(op) : op \in BaseOps \cup PgOps \cup LiteOps}
-  \cup {OtherC("not", FALSE, FALSE, FALSE), OtherC("cast", FALSE, FALSE, FALSE), OtherC("fn", FALSE, FALSE, FALSE)}
+  {BinC(op) : op \in BaseOps \cup PgOps \cup LiteOps \cup CustomOps}
+  \cup {OtherC("not", FALSE, FALSE, FALSE), OtherC("cast", FALSE, FALSE, FALSE), OtherC("fn", FALSE, FALSE, FALSE), OtherC("asenum", FALSE, FALSE, FALSE)}
   \cup {OtherC("between", n, FALSE, FALSE) : n \in BOOLEAN}
   \cup {OtherC("in", n, FALSE, FALSE) : n \in BOOLEAN}
   \cup {OtherC("isnull", n, FALSE, FALSE) : n \in BOOLEAN}
   \cup {OtherC("like", n, e, ci) : n \in BOOLEAN, e \in BOOLEAN, ci \in BOOLEAN}
 \* representative set for three-operator trees: one per precedence class
 RepCtors ==
-  {BinC(op) : op \in {"And", "Or", "Equal", "Add", "Mul", "Div", "BitOr", "LShift", "Is", "PgConcatenate", "PgContains", "SqliteGlob"}}
+  {BinC(op) : op \in {"And", "Or", "Equal", "Add", "Mul", "Div", "BitOr", "LShift", "Is", "PgConcatenate", "PgContains", "SqliteGlob", "Custom:||", "Custom:XOR"}}
   \cup {OtherC("not", FALSE, FALSE, FALSE), OtherC("between", FALSE, FALSE, FALSE), OtherC("like", FALSE, TRUE, FALSE),
-        OtherC("in", TRUE, FALSE, FALSE), OtherC("cast", FALSE, FALSE, FALSE)}
+        OtherC("in", TRUE, FALSE, FALSE), OtherC("cast", FALSE, FALSE, FALSE), OtherC("asenum", FALSE, FALSE, FALSE)}
 
 Arity(c) == CASE c.c = "bin" -> 2 [] c.c = "between" -> 3 [] c.c = "in" -> 2 [] OTHER -> 1
 Col(n) == [k |-> "col", n |-> n]
@@ -46,6 +48,7 @@ Build(c, xs) ==
     [] c.c = "in" -> [k |-> "in", neg |-> c.neg, e |-> xs[1], vs |-> <<xs[2], IntV("7")>>]
     [] c.c = "isnull" -> [k |-> "isnull", neg |-> c.neg, e |-> xs[1]]
     [] c.c = "cast" -> [k |-> "cast", e |-> xs[1], ty |-> "integer"]
+    [] c.c = "asenum" -> [k |-> "asenum", e |-> xs[1], ty |-> "mood"]
     [] c.c = "fn" -> [k |-> "fn", f |-> "Max", args |-> <<xs[1]>>]
 
 L1 == <<Col("a"), Col("b"), IntV("3")>>
@@ -61,7 +64,10 @@ ThreeChain == {Build(c, Sub3(L1, p, Build(d, Sub3(L2, q, Build(e, L3))))) :
                                           x[2] <= Arity(x[1]) /\ x[4] <= Arity(x[3])}}
 ThreeFork == {Build(c, Sub3(Sub3(L1, 1, Build(d, L2)), 2, Build(e, L3))) :
                  <<c, d, e>> \in {x \in RepCtors \X RepCtors \X RepCtors : Arity(x[1]) >= 2}}
-Trees == One \cup Two \cup (IF Depth >= 3 THEN ThreeChain \cup ThreeFork ELSE {})
+\* an enum cast between two operators: transparent on MySQL / SQLite (the operand is written as it is), a CAST on PostgreSQL
+WrapE(x) == [k |-> "asenum", e |-> x, ty |-> "mood"]
+TwoEnum == {Build(c, Sub3(L1, p, WrapE(Build(d, L2)))) : <<c, p, d>> \in {x \in RepCtors \X (1..3) \X RepCtors : x[2] <= Arity(x[1])}}
+Trees == One \cup Two \cup TwoEnum \cup (IF Depth >= 3 THEN ThreeChain \cup ThreeFork ELSE {})
 
 VARIABLE e
 Init == e \in Trees
